@@ -206,6 +206,8 @@ impl<'v> Heap<'v> {
 
     /// Add a dependency onto the provided frozen heap.
     pub fn add_reference(&self, h: &FrozenHeapRef) {
+        #[cfg(feature = "verif_hooks")]
+        crate::verif_hooks::sched_point(crate::verif_hooks::Site::AddReference);
         let mut refs = self.0.refs.borrow_mut();
         if !refs.contains(h) {
             refs.insert(h.dupe());
@@ -714,6 +716,8 @@ pub(crate) fn cached_heap_deserialization_state_retained_bytes(
 
 impl Drop for FrozenFrozenHeap {
     fn drop(&mut self) {
+        #[cfg(feature = "verif_hooks")]
+        crate::verif_hooks::sched_point(crate::verif_hooks::Site::FrozenHeapDrop);
         if let Some(state) = self.deser_state.get() {
             state.unregister_heap(FrozenHeapPtr(self as *const Self as usize));
         }
@@ -1112,6 +1116,8 @@ impl FrozenHeap {
         name: Option<FrozenHeapName>,
         peak_allocated_bytes: Option<usize>,
     ) -> FrozenHeapRef {
+        #[cfg(feature = "verif_hooks")]
+        crate::verif_hooks::sched_point(crate::verif_hooks::Site::FrozenHeapIntoRef);
         let FrozenHeap {
             mut arena, refs, ..
         } = self;
@@ -1137,6 +1143,8 @@ impl FrozenHeap {
     /// is kept alive. Used if a [`FrozenValue`] in this heap points at values in another
     /// [`FrozenHeap`].
     pub fn add_reference(&self, heap: &FrozenHeapRef) {
+        #[cfg(feature = "verif_hooks")]
+        crate::verif_hooks::sched_point(crate::verif_hooks::Site::AddReference);
         if heap.0.is_none() {
             return;
         }
